@@ -57,12 +57,13 @@ func (s *S) UnmarshalJSON(b []byte) error {
 
 // Input is the replayable input of one case (tagged union).
 type Input struct {
-	Kind   string  `json:"kind"` // direct | raw | hash | b64 | server | client
+	Kind   string  `json:"kind"` // direct | raw | hash | b64 | server | client | flow
 	Direct *Direct `json:"direct,omitempty"`
 	Raw    *Raw    `json:"raw,omitempty"`
 	Bytes  S       `json:"bytes,omitempty"`
 	Server *Server `json:"server,omitempty"`
 	Client *Client `json:"client,omitempty"`
+	Flow   *Flow   `json:"flow,omitempty"`
 }
 
 // Direct: real auth.Sender -> real auth.Verify.  The server side is (Methods, User, Pass, Realm,
@@ -568,6 +569,8 @@ func (r *runner) replay(in *Input, name string) {
 		r.serverCase(in.Server, name)
 	case "client":
 		r.clientCase(in.Client, name)
+	case "flow":
+		r.flowCase(in.Flow, name)
 	}
 }
 
@@ -586,7 +589,7 @@ func corpusDir() string {
 
 // Run is the domain entry point.
 func Run(c *corr.Ctx) {
-	c.Rule("direct: real auth.Sender -> real auth.Verify for generated user/password (incl. ':', '\"', non-ASCII, long)/realm/nonce/method list (nil, subsets, orders, duplicates)/request method/URL (ports, IPv6, paths, queries, trackID suffixes, credentials) with no perturbation (completeness) or exactly one perturbed field (user, pass, realm, nonce, method, algorithm, URL named in the header, URL in the response, scheme not enabled, SETUP base URL with/without slash, abs_path URI); raw: mutated / random Authorization and WWW-Authenticate texts through the parsers, Sender and Verify; hash and base64 sweeps over all lengths around block boundaries; server: real gortsplib.Server on loopback, scripted request sequences per connection (no credentials, right, wrong user/password/nonce, unparsable, empty user name) observing status, challenge and connection fate; client: real gortsplib.Client with URL credentials against it; non-trivial = every case; distinct = distinct op-line sequences")
+	c.Rule("direct: real auth.Sender -> real auth.Verify for generated user/password (incl. ':', '\"', non-ASCII, long)/realm/nonce/method list (nil, subsets, orders, duplicates)/request method/URL (ports, IPv6, paths, queries, trackID suffixes, credentials) with no perturbation (completeness) or exactly one perturbed field (user, pass, realm, nonce, method, algorithm, URL named in the header, URL in the response, scheme not enabled, SETUP base URL with/without slash, abs_path URI); raw: mutated / random Authorization and WWW-Authenticate texts through the parsers, Sender and Verify; hash and base64 sweeps over all lengths around block boundaries; server: real gortsplib.Server on loopback, scripted request sequences per connection (no credentials, right, wrong user/password/nonce, unparsable, empty user name) observing status, challenge and connection fate; client: real gortsplib.Client with URL credentials against it; flow: real gortsplib.Client (URL credentials, automatic protocol) playing from a scripted server that uses the library's GenerateNonce / GenerateWWWAuthenticate / Verify and challenges every new connection with a fresh nonce, for each of Basic / Digest-MD5 / Digest-SHA-256: plain TCP, forced UDP->TCP switch after the initial UDP timeout, TCP transport in the SETUP answer, redirect to a second challenging server (before / after authentication), PAUSE + PLAY again, keepalive, nonce changed mid-session (recorded only); non-trivial = every case; distinct = distinct op-line sequences")
 	r := &runner{c: c}
 	defer r.stopServers()
 
@@ -643,4 +646,5 @@ func Run(c *corr.Ctx) {
 	for i := 0; i < n; i++ {
 		r.clientCase(g.client(), fmt.Sprintf("client-%d", i))
 	}
+	r.flows(g)
 }
